@@ -90,8 +90,9 @@ theorem localize_reject_iff (z : Zone) (hwf : z.wf = true) (w : Int)
     (localize z none w = .error .nonexistent ↔ ∀ u, ¬ IsPre z w u) ∧
     (localize z none w = .error .ambiguous ↔ ∃ u1 u2, u1 ≠ u2 ∧ IsPre z w u1 ∧ IsPre z w u2) ∧
     (∀ u, localize z none w = .ok u ↔ (IsPre z w u ∧ ∀ u', IsPre z w u' → u' = u)) := by
-  rcases zone_situation z hwf w with ⟨P, h0, h1, hpre, huniq⟩ | ⟨hoff, hnone⟩ | ⟨hoff, hpre0, hpre1⟩
-  · have hloc := localize_unique_case z w P h0 h1 hpre (by rw [← h0]; exact hr) none
+  rcases zone_situation z hwf w with ⟨P, h0, h1, hper, huniq⟩ | ⟨hoff, hnone⟩ | ⟨hoff, hper0, hper1, hall⟩
+  · have hpre : IsPre z w (w - P.off) := by unfold IsPre periodAt; rw [hper]; omega
+    have hloc := localize_unique_case z w P h0 h1 hpre (by rw [← h0]; exact hr) none
     rw [hloc]
     refine ⟨⟨fun h => by simp at h, fun h => absurd hpre (h _)⟩, ⟨fun h => by simp at h, ?_⟩, ?_⟩
     · rintro ⟨u1, u2, hne, h1', h2'⟩
@@ -108,7 +109,12 @@ theorem localize_reject_iff (z : Zone) (hwf : z.wf = true) (w : Int)
       constructor
       · intro h; simp at h
       · rintro ⟨hu, _⟩; exact absurd hu (hnone u)
-  · have hloc := localize_overlap_case z w hoff hpre0 hr
+  · have hoff : (wallPeriod true z w).off < (wallPeriod false z w).off := hoff
+    have hper0 : periodAt z (w - (wallPeriod false z w).off) = wallPeriod false z w := hper0
+    have hper1 : periodAt z (w - (wallPeriod true z w).off) = wallPeriod true z w := hper1
+    have hpre0 : IsPre z w (w - (wallPeriod false z w).off) := by unfold IsPre; rw [hper0]; omega
+    have hpre1 : IsPre z w (w - (wallPeriod true z w).off) := by unfold IsPre; rw [hper1]; omega
+    have hloc := localize_overlap_case z w hoff hpre0 hr
     rw [hloc]
     refine ⟨⟨fun h => by simp at h, fun h => absurd hpre0 (h _)⟩, ⟨fun _ => ?_, fun _ => rfl⟩, ?_⟩
     · exact ⟨_, _, by omega, hpre0, hpre1⟩
@@ -147,8 +153,9 @@ theorem zone_roundtrip (p : Nat) (hp : p ≤ 6) (μ bias : Int) (z : Zone) (hwf 
   rw [secsOfCivil_civilOfSecs]
   have hus : IsPre z w us := rfl
   by_cases hrange : InRange (w - (wallPeriod false z w).off)
-  · rcases zone_situation z hwf w with ⟨P, h0, h1, hpre, huniq⟩ | ⟨hoff, hnone⟩ | ⟨hoff, hpre0, hpre1⟩
+  · rcases zone_situation z hwf w with ⟨P, h0, h1, hper, huniq⟩ | ⟨hoff, hnone⟩ | ⟨hoff, hper0, hper1, hall⟩
     · left
+      have hpre : IsPre z w (w - P.off) := by unfold IsPre periodAt; rw [hper]; omega
       have hloc := localize_unique_case z w P h0 h1 hpre (by rw [← h0]; exact hrange) none
       have hP : us = w - P.off := huniq us hus
       rw [hloc, ← hP]
@@ -158,6 +165,11 @@ theorem zone_roundtrip (p : Nat) (hp : p ≤ 6) (μ bias : Int) (z : Zone) (hwf 
       rw [huniq u hu, hP]
     · exact absurd hus (hnone us)
     · right; left
+      have hoff : (wallPeriod true z w).off < (wallPeriod false z w).off := hoff
+      have hper0 : periodAt z (w - (wallPeriod false z w).off) = wallPeriod false z w := hper0
+      have hper1 : periodAt z (w - (wallPeriod true z w).off) = wallPeriod true z w := hper1
+      have hpre0 : IsPre z w (w - (wallPeriod false z w).off) := by unfold IsPre; rw [hper0]; omega
+      have hpre1 : IsPre z w (w - (wallPeriod true z w).off) := by unfold IsPre; rw [hper1]; omega
       rw [localize_overlap_case z w hoff hpre0 hrange]
       exact ⟨rfl, _, _, by omega, hpre0, hpre1⟩
   · right; right
@@ -173,6 +185,64 @@ theorem zone_never_different (p : Nat) (hp : p ≤ 6) (μ bias : Int) (z : Zone)
   · rw [h1] at hparse; exact (Except.ok.inj hparse).symm
   · rw [h1] at hparse; exact absurd hparse (by simp)
   · rw [h1] at hparse; exact absurd hparse (by simp)
+
+/-- **Round trip with a daylight-saving designation** (default rendering: the zone's abbreviation,
+which `timestamp._tzabbrev` maps back to the zone and the daylight-saving flag of the period): the
+rendering parses back to the rendered instant *also inside the repeated hour*, provided the two
+periods that overlap there differ in their daylight-saving flag (a true DST change). -/
+theorem designated_roundtrip (p : Nat) (hp : p ≤ 6) (μ bias : Int) (z : Zone) (hwf : z.wf = true)
+    (db : TzDb) (text : List Char) (h : render p μ bias (some z) .dflt = some text) :
+    let us := renderInstant p μ bias / 1000000
+    let per := periodAt z us
+    let w := us + per.off
+    ZoneWord per.abbr → db.info per.abbr = .ok (z, some per.dst) →
+    ((wallPeriod false z w).off ≠ (wallPeriod true z w).off →
+      (wallPeriod false z w).dst ≠ (wallPeriod true z w).dst) →
+    InRange (w - (wallPeriod false z w).off) →
+    parse db text = .ok (renderedInstant p μ bias) := by
+  obtain ⟨hr, hv, hf, ht⟩ := render_eq p hp μ bias (some z) .dflt text h
+  simp only [Option.getD_some] at hr hv hf ht
+  simp only [suffixOf] at ht
+  intro us per w hword hdb hdst hrange
+  have hparse : parse db text = instantOf z (some per.dst) (civilOfSecs w)
+      (microOf p ((renderInstant p μ bias % 1000000).toNat / pow10 (6 - p))) := by
+    rw [ht]; exact parse_format_zone db _ p _ hv hp hf per.abbr hword z (some per.dst) hdb
+  rw [hparse]
+  unfold instantOf
+  rw [secsOfCivil_civilOfSecs]
+  have hus : IsPre z w us := rfl
+  have hfin : ∀ u, u = us → (match (Except.ok u : Except Reject Int) with
+      | .error e => (Except.error e : Except Reject Int)
+      | .ok u => if (civilOfSecs u).y < 1 || (civilOfSecs u).y > 9999 then .error .overflow
+                 else .ok (u * 1000000 + microOf p ((renderInstant p μ bias % 1000000).toNat / pow10 (6 - p))))
+      = .ok (renderedInstant p μ bias) := by
+    intro u hu
+    subst hu
+    simp only []
+    rw [if_neg (by rw [Bool.not_eq_true]; exact (inRange_iff _).2 hr), recombine p hp μ bias]
+  rcases zone_situation z hwf w with ⟨P, h0, h1, hper, huniq⟩ | ⟨hoff, hnone⟩ | ⟨hoff, hper0, hper1, hall⟩
+  · have hpre : IsPre z w (w - P.off) := by unfold IsPre periodAt; rw [hper]; omega
+    rw [localize_unique_case z w P h0 h1 hpre (by rw [← h0]; exact hrange) (some per.dst)]
+    exact hfin _ (huniq us hus).symm
+  · exact absurd hus (hnone us)
+  · have hoff : (wallPeriod true z w).off < (wallPeriod false z w).off := hoff
+    have hper0 : periodAt z (w - (wallPeriod false z w).off) = wallPeriod false z w := hper0
+    have hper1 : periodAt z (w - (wallPeriod true z w).off) = wallPeriod true z w := hper1
+    have hpre0 : IsPre z w (w - (wallPeriod false z w).off) := by unfold IsPre; rw [hper0]; omega
+    rw [localize_overlap_flag z w per.dst hoff hpre0 hrange]
+    have hne := hdst (by omega)
+    apply hfin
+    rcases hall us hus with hu | hu
+    · have hu : us = w - (wallPeriod false z w).off := hu
+      have hp0 : per = wallPeriod false z w := by show periodAt z us = _; rw [hu]; exact hper0
+      rw [hp0]
+      simp [hne]
+      exact hu.symm
+    · have hu : us = w - (wallPeriod true z w).off := hu
+      have hp1 : per = wallPeriod true z w := by show periodAt z us = _; rw [hu]; exact hper1
+      rw [hp1]
+      simp [hne]
+      exact hu.symm
 
 /-! ### comparison -/
 
